@@ -20,6 +20,7 @@
                     only): accumulated ASE / NLI cannot be dropped inside an element.
  R5 NLI spreading : between the per-cut sums and add_nli only sign-preserving operations (numpy.interp clamps; no extrapolation).
  R6 own arrays    : the constructor copies (fancy index) and permutes every per-channel array: in-place share updates cannot alias.
+ Rn arg roles     : a variable named like a parameter of the callee is handed to that parameter (no exchanged roles).
 """
 import ast
 
@@ -385,6 +386,15 @@ def r4_no_reset(ctx):
     ctx.need('R4.no-reset', 80)
 
 
+def rn_arg_roles(ctx):
+    """Rn: a variable named like a parameter of the callee is handed to that parameter (no exchanged roles such as
+    f(to_degree, from_degree) for def f(from_degree, to_degree)); calls to resolved package functions, canonical form"""
+    from .common import arg_roles_rule
+    from ..memo import scope_funcs
+    n = arg_roles_rule(ctx, 'Rn.arg-roles', scope_funcs(ctx.repo, 'C02'), 'an element would be given the wrong quantity')
+    ctx.check('Rn.arg-roles', 'argument / parameter name scan', True, 'C02|arg-roles-scan', '', f'{n} argument(s) named like another parameter judged')
+
+
 from ..memo import rule_for as _memo_rule
 
 RULES_MEMO = ('Rm.memo', _memo_rule('C02', 'an element would apply noise computed for another spectrum or configuration'))
@@ -394,4 +404,4 @@ from ..presence import rule_for as _presence_rule
 
 RULES_PRESENCE = ('Rp.presence', _presence_rule('C02', 'a legal zero would be read as missing'))
 
-RULES = [('R3.raman-ase', r3b_raman_ase), ('R1.effects', r1_effects), ('R2.identities', r2_identities), ('R3.sign', r3_sign), RULES_MEMO, RULES_PRESENCE, ('R4.no-reset', r4_no_reset), ('R5.nli-interp', r5_nli_interp), ('R6.own-arrays', r6_own_arrays)]
+RULES = [('R3.raman-ase', r3b_raman_ase), ('R1.effects', r1_effects), ('R2.identities', r2_identities), ('R3.sign', r3_sign), RULES_MEMO, RULES_PRESENCE, ('R4.no-reset', r4_no_reset), ('R5.nli-interp', r5_nli_interp), ('R6.own-arrays', r6_own_arrays), ('Rn.arg-roles', rn_arg_roles)]
